@@ -321,6 +321,7 @@ void RunCondVar(Model& md, const Case& c, int k) {
 }
 
 static YACLIB_THREAD_LOCAL_PTR(int) tls_ptr;
+static YACLIB_THREAD_LOCAL_PTR(long) tls_other;  // a second thread-local pointer of another type must be independent
 
 void RunThreadTlsSleep(Model& md, const Case& c, int k) {
   std::vector<int> finished(static_cast<std::size_t>(k), 0);
@@ -332,6 +333,14 @@ void RunThreadTlsSleep(Model& md, const Case& c, int k) {
         md.Err("fresh fiber sees another fiber's thread-local pointer");
       }
       tls_ptr = &slot[static_cast<std::size_t>(i)];
+      if (tls_other.Get() != nullptr) {
+        md.Err("setting one thread-local pointer changed another thread-local pointer (of a different type)");
+      }
+      static long other_slot[8];
+      tls_other = &other_slot[i % 8];
+      if (tls_ptr.Get() != &slot[static_cast<std::size_t>(i)]) {
+        md.Err("setting a second thread-local pointer overwrote the first one");
+      }
       for (std::size_t r = 0; r < c.Records(); ++r) {
         const int* rec = c.Rec(r);
         if (rec[0] % k != i) {
@@ -356,7 +365,7 @@ void RunThreadTlsSleep(Model& md, const Case& c, int k) {
             md.Err("sleep_until returned before the time point");
           }
         }
-        if (tls_ptr.Get() != &slot[static_cast<std::size_t>(i)]) {
+        if (tls_ptr.Get() != &slot[static_cast<std::size_t>(i)] || tls_other.Get() != &other_slot[i % 8]) {
           md.Err("thread-local pointer changed under the fiber (not per fiber)");
         }
       }
